@@ -284,8 +284,13 @@ def build_tree(sc: dict, root: str) -> T.Tuple[str, str, T.List[str]]:
         files['subprojects/sub/meson.options'] = ''.join(decl_line(n, d) for n, d in sc['sub_decl'].items())
     # machine file
     sections: T.Dict[str, T.List[str]] = {}
+    native_build: T.List[str] = []
     for source, pfx in ((S3, ''), (S7, 'sub:')):
         for n, v in srcs.get(source, []):
+            if sc.get('cross') and source == S3 and n.startswith('build.'):
+                # the build machine's value of a per-machine option comes from the native file (unprefixed there)
+                native_build.append(f'{n[6:]} = {emit_ini(v, n)}')
+                continue
             proj = n in (sc['top_decl'] if source == S3 else sc['sub_decl']) or sc.get('force_project_section', {}).get(n)
             sec = pfx + ('project options' if proj else 'built-in options')
             sections.setdefault(sec, []).append(f'{n} = {emit_ini(v, n)}')
@@ -297,6 +302,8 @@ def build_tree(sc: dict, root: str) -> T.Tuple[str, str, T.List[str]]:
         files['cross.ini'] = cross + mtxt
         argv += ['--cross-file', os.path.join(src, 'cross.ini')]
         decoy = sc.get('native_decoy')
+        if native_build:
+            decoy = (decoy or '') + '[built-in options]\n' + '\n'.join(native_build) + '\n'
         if decoy:
             files['native.ini'] = decoy
             argv += ['--native-file', os.path.join(src, 'native.ini')]
@@ -307,8 +314,21 @@ def build_tree(sc: dict, root: str) -> T.Tuple[str, str, T.List[str]]:
     if sc.get('cmd_bt_last'):
         # the command line is documented order-independent for buildtype vs debug/optimization
         cmd_entries = [e for e in cmd_entries if e[0] != 'buildtype'] + [e for e in cmd_entries if e[0] == 'buildtype']
+    cmd_form = sc.get('cmd_form', 'D')
     for n, v in cmd_entries:
-        argv.append(f'-D{n}={emit_cmd(v, n)}')
+        bare = n[6:] if n.startswith('build.') else n
+        if cmd_form != 'D' and bare in R.BUILTINS and not (isinstance(v, bool) and not v):
+            # Builtin-options.md: "Some options can also be set by --option=value, or --option value";
+            # "--warnlevel is the cli argument for the warning_level option"
+            arg = '--warnlevel' if n == 'warning_level' else '--' + n.replace('_', '-')
+            if isinstance(v, bool):
+                argv.append(arg)
+            elif cmd_form == 'long-eq':
+                argv.append(f'{arg}={emit_cmd(v, bare)}')
+            else:
+                argv += [arg, emit_cmd(v, bare)]
+        else:
+            argv.append(f'-D{n}={emit_cmd(v, bare)}')
     for n, v in srcs.get(S8, []):
         argv.append(f'-Dsub:{n}={emit_cmd(v, n)}')
     for fn, text in sc.get('extra_files', {}).items():
@@ -445,7 +465,7 @@ def run_scenario(sc: dict, root: str) -> dict:
         try:
             with open(os.path.join(bdir, 'meson-info', 'intro-buildoptions.json'), encoding='utf-8') as f:
                 for e in json.load(f):
-                    if e.get('machine', 'any') != 'build':
+                    if e.get('machine', 'any') != 'build' or str(e.get('name', '')).startswith('build.'):
                         intro[e['name']] = e['value']
         except (OSError, ValueError):
             intro = {}
@@ -744,6 +764,83 @@ def gen_yield_type_mismatch(thorough: bool, seed: int) -> T.List[dict]:
                 sc['expect']['top|' + name] = exp(parent)
                 sc['expect']['sub|' + name] = {'value': None, 'winner': None, 'documented': False, 'allowed': allowed}
             out.append(sc)
+    return out
+
+
+def gen_cmd_spellings(thorough: bool, seed: int) -> T.List[dict]:
+    """The command-line source written in its other documented spellings (--option=value, --option value,
+    --warnlevel, bare --flag for a true boolean) instead of -Doption=value: same source, same priority."""
+    out: T.List[dict] = []
+    forms = ('long-eq', 'long-space')
+    s4 = 1 << S.index(S4)
+    if thorough:
+        masks = [m for m in range(256) if m & s4]
+    else:
+        masks = [0x08, 0x0c, 0x09, 0x0a, 0x88, 0x18, 0x0f, 0xff]
+    for j, m in enumerate(masks):
+        for f in (forms[(j + seed) % 2],):
+            for sc in gen_subsets('BSL', BUILTIN_PERSUB, 'builtin_persub', [m], seed, cmd_form=f):
+                sc['id'] += ':' + f
+                out.append(sc)
+    for j, m in enumerate([0x08, 0x09, 0x0c, 0x0d]):
+        for f in forms:
+            for sc in gen_subsets('BGL', BUILTIN_GLOBAL, 'builtin_global', [m], seed + j, cmd_form=f):
+                sc['id'] += ':' + f
+                out.append(sc)
+    return out
+
+
+PER_MACHINE = ['pkg_config_path', 'cmake_prefix_path']
+
+
+def gen_per_machine(thorough: bool, seed: int, rng: T.Any) -> T.List[dict]:
+    """Per-machine builtins, host and build variant, each with its own subset of {project default_options,
+    machine file, command line}; command line as -D or in the long spelling.  Builtin-options.md: "Prefixing
+    the option with build. only affects the build machine configuration, while leaving it unprefixed only
+    affects the host machine configuration"; Machine-files.md: for these options "the values from both a
+    cross file and a native file are used" (cross file -> host, native file -> build).
+      cross:  both variants are resolved by the top-level order, independently of each other;
+      native: the unprefixed option is resolved from the unprefixed sources only (a build.-spelled source must
+              not reach it); what build.X itself reads in a native build is not documented and not observed."""
+    out: T.List[dict] = []
+    srcs3 = (S1, S3, S4)
+    combos = [(h, b) for h in range(8) for b in range(8)]
+    if not thorough:
+        must = [(h, b) for h, b in combos if (b & 4 and bin(h).count('1') <= 1) or (h, b) in ((7, 7), (4, 4), (2, 4), (4, 2))]
+        rest = [c for c in combos if c not in must]
+        combos = must + rng.sample(rest, 6)
+    forms = ('D', 'long-eq', 'long-space')
+    for j, (h, b) in enumerate(combos):
+        for cross in (True, False):
+            if not cross and not (b & 4):
+                continue     # native: only a build.-spelled command-line source can reach the wrong option
+            for f in (forms if thorough else (forms[(j + seed + int(cross)) % 3],)):
+                if f != 'D' and not ((h | b) & 4):
+                    continue
+                sc = new_sc(f'{"XPM" if cross else "NPM"}:{h}{b}:{f}', 'XPM' if cross else 'NPM', cross=cross, cmd_form=f,
+                            use_intro=True, scope='per-machine')
+                for name in PER_MACHINE:
+                    hv = {s_: [f'/vf/{name[:3]}/host/{s_}'] for i, s_ in enumerate(srcs3) if h >> i & 1}
+                    bv = {s_: [f'/vf/{name[:3]}/build/{s_}'] for i, s_ in enumerate(srcs3) if b >> i & 1}
+                    if not cross:
+                        bv.pop(S3, None)     # a native build has one machine file: no separate build-machine file
+                    for s_, v in hv.items():
+                        add_src(sc, s_, name, v)
+                    for s_, v in bv.items():
+                        add_src(sc, s_, 'build.' + name, v)
+                    sc['kinds'][name] = sc['kinds']['build.' + name] = 'array'
+                    sc['probe_top'].append(name)
+                    sc['probe_sub'].append(name)
+                    rh = exp(R.resolve_top(hv, []))
+                    sc['expect']['top|' + name] = rh
+                    sc['expect']['sub|' + name] = rh
+                    if cross:
+                        sc['probe_top'].append('build.' + name)
+                        sc['probe_sub'].append('build.' + name)
+                        rb = exp(R.resolve_top(bv, []))
+                        sc['expect']['top|build.' + name] = rb
+                        sc['expect']['sub|build.' + name] = rb
+                out.append(sc)
     return out
 
 
@@ -1165,6 +1262,14 @@ def classify(sc: dict, mm: dict) -> str:
             got_src = 'default'
     scope = sc.get('scope') or sc['group']
     bad_ch = sorted({c[0].split(':')[0] for c in mm['channels'] if not c[2]})
+    if sc['group'] in ('XPM', 'NPM'):
+        variant = 'build' if name.startswith('build.') else 'host'
+        got_any = None
+        for s_, lst in sc['src'].items():
+            for n, v in lst:
+                if observed is not None and (same(n, v, str(observed)) or same_val(v, observed)):
+                    got_any = ('build.' if n.startswith('build.') else 'host.') + s_
+        return f'per-machine:{"cross" if sc.get("cross") else "native"}:{variant}-option:expected-{e["winner"]}:got-{got_any or "other"}'
     if sc['group'] == 'YT':
         i = int(name[1:])
         return f'yield-type-mismatch:sub-{YT_PAIRS[i][0]}-parent-{YT_PAIRS[i][1]}:value-not-valid-for-own-option-or-not-own'
@@ -1375,6 +1480,8 @@ def scenarios(chk: common.Check) -> T.List[dict]:
     out += gen_prefix_spellings(thorough)
     out += gen_yield_type_mismatch(thorough, seed)
     out += gen_histories(thorough, seed, chk.rng)
+    out += gen_cmd_spellings(thorough, seed)
+    out += gen_per_machine(thorough, seed, chk.rng)
     out += gen_buildtype(seed, thorough, chk.rng)
     out += gen_buildtype_sub(seed)
     out += gen_invalid(thorough, seed)
@@ -1392,7 +1499,7 @@ def scenarios(chk: common.Check) -> T.List[dict]:
         out += gen_subsets('PNx', pk, 'project', all256, seed, cross=True,
                            native_decoy="[project options]\nps = 'vf_decoy'\npi = 999\n[sub:project options]\nps = 'vf_decoy'\npi = 999\n")
     # a time cut (quick: 150 s) drops the tail: cheap, deciding groups first, the C-compiler group last
-    prio = ['KF', 'T16', 'PN', 'BS', 'LPN', 'LBS', 'RPN', 'RBS', 'YT', 'DIRS', 'PY', 'PS', 'INV', 'UNK', 'DIR', 'BT', 'BTS',
+    prio = ['KF', 'T16', 'PN', 'BS', 'LPN', 'LBS', 'RPN', 'RBS', 'XPM', 'NPM', 'BSL', 'BGL', 'YT', 'DIRS', 'PY', 'PS', 'INV', 'UNK', 'DIR', 'BT', 'BTS',
             'BG', 'BGS', 'BND', 'MF', 'OVI']
     out.sort(key=lambda sc: prio.index(sc['group']) if sc['group'] in prio else len(prio) + (sc['group'] in ('CC', 'CX')))
     return out
